@@ -18,11 +18,17 @@ func init() { Register("C04", genC04) }
 var c04Suffix = regexp.MustCompile(`(Str|Idx|Sym)\b`)
 var c04Ws = regexp.MustCompile(`\s+`)
 
+// c04Erase: erase the Str/Idx/Sym suffixes (true for the triplicated families, false for the dispatchers, whose whole point
+// is WHICH copy each key type reaches)
+var c04Erase = true
+
 func c04Norm(p *Pkg, n ast.Node, keyParam string) string {
 	var b bytes.Buffer
 	printer.Fprint(&b, p.Fset, n)
 	s := c04Ws.ReplaceAllString(b.String(), " ")
-	s = c04Suffix.ReplaceAllString(s, "")
+	if c04Erase {
+		s = c04Suffix.ReplaceAllString(s, "")
+	}
 	if keyParam != "" {
 		s = regexp.MustCompile(`\b`+regexp.QuoteMeta(keyParam)+`\b`).ReplaceAllString(s, "KEY")
 	}
@@ -105,6 +111,54 @@ func c04Skeleton(p *Pkg, fd *ast.FuncDecl) ([]string, error) {
 			out = append(out, c04Norm(p, s, key))
 		case *ast.BlockStmt:
 			return walkBlock(s)
+		case *ast.IncDecStmt:
+			out = append(out, c04Norm(p, s.X, key)+s.Tok.String())
+		case *ast.RangeStmt:
+			out = append(out, "for range "+c04Norm(p, s.X, key))
+			if err := walkBlock(s.Body); err != nil {
+				return err
+			}
+			out = append(out, "end")
+		case *ast.ForStmt:
+			if s.Init != nil {
+				if err := walk(s.Init); err != nil {
+					return err
+				}
+			}
+			cond := ""
+			if s.Cond != nil {
+				cond = c04Norm(p, s.Cond, key)
+			}
+			out = append(out, "for "+cond)
+			if err := walkBlock(s.Body); err != nil {
+				return err
+			}
+			if s.Post != nil {
+				if err := walk(s.Post); err != nil {
+					return err
+				}
+			}
+			out = append(out, "end")
+		case *ast.TypeSwitchStmt:
+			out = append(out, "typeswitch "+c04Norm(p, s.Assign, key))
+			for _, cc := range s.Body.List {
+				cl := cc.(*ast.CaseClause)
+				ts := []string{}
+				for _, e := range cl.List {
+					ts = append(ts, c04Norm(p, e, key))
+				}
+				if len(ts) == 0 {
+					out = append(out, "default")
+				} else {
+					out = append(out, "case "+strings.Join(ts, ", "))
+				}
+				for _, st := range cl.Body {
+					if err := walk(st); err != nil {
+						return err
+					}
+				}
+			}
+			out = append(out, "end")
 		case *ast.BranchStmt:
 			lbl := ""
 			if s.Label != nil {
@@ -162,6 +216,58 @@ func genC04(p *Pkg) (map[string]string, error) {
 			b.WriteString("]\n\n")
 		}
 	}
+	// single functions: the copy-on-write marker of propNames, the key-type dispatchers, the lazily-templated built-ins,
+	// the mapped arguments object — each is transcribed in a Lean model (Cow.lean, Entry.lean, Templ.lean, Args.lean)
+	singles := []struct{ lean, recv, fn string }{
+		{"cow_delete", "baseObject", "_delete"},
+		{"cow_fixPropOrder", "baseObject", "fixPropOrder"},
+		{"cow_ensurePropOrder", "baseObject", "ensurePropOrder"},
+		{"cow_prepareNamesForCopy", "", "prepareNamesForCopy"},
+		{"cow_namesMarkedForCopy", "", "namesMarkedForCopy"},
+		{"cow_clearNamesCopyMarker", "", "clearNamesCopyMarker"},
+		{"cow_copyNamesIfNeeded", "", "copyNamesIfNeeded"},
+		{"cow_iterateStringKeys", "baseObject", "iterateStringKeys"},
+		{"cow_objectPropIter_next", "objectPropIter", "next"},
+		{"disp_get", "Object", "get"},
+		{"disp_set", "Object", "set"},
+		{"disp_setOwn", "Object", "setOwn"},
+		{"disp_delete", "Object", "delete"},
+		{"disp_hasProperty", "Object", "hasProperty"},
+		{"disp_defineOwnProperty", "Object", "defineOwnProperty"},
+		{"tmpl_getOwnPropStr", "templatedObject", "getOwnPropStr"},
+		{"tmpl_getOwnPropSym", "templatedObject", "getOwnPropSym"},
+		{"tmpl_materialiseSymbols", "templatedObject", "materialiseSymbols"},
+		{"tmpl_materialisePropNames", "templatedObject", "materialisePropNames"},
+		{"tmpl_defineOwnPropertyStr", "templatedObject", "defineOwnPropertyStr"},
+		{"tmpl_defineOwnPropertySym", "templatedObject", "defineOwnPropertySym"},
+		{"tmpl_deleteStr", "templatedObject", "deleteStr"},
+		{"tmpl_deleteSym", "templatedObject", "deleteSym"},
+		{"tmpl_setOwnSym", "templatedObject", "setOwnSym"},
+		{"tmpl_hasOwnPropertyStr", "templatedObject", "hasOwnPropertyStr"},
+		{"tmpl_hasOwnPropertySym", "templatedObject", "hasOwnPropertySym"},
+		{"args_getOwnPropStr", "argumentsObject", "getOwnPropStr"},
+		{"args_setOwnStr", "argumentsObject", "setOwnStr"},
+		{"args_deleteStr", "argumentsObject", "deleteStr"},
+		{"args_defineOwnPropertyStr", "argumentsObject", "defineOwnPropertyStr"},
+	}
+	for _, f := range singles {
+		c04Erase = !strings.HasPrefix(f.lean, "disp_")
+		sk, err := c04Skeleton(p, p.FuncDecl(f.recv, f.fn))
+		c04Erase = true
+		if err != nil {
+			return nil, fmt.Errorf("%s.%s: %v", f.recv, f.fn, err)
+		}
+		fmt.Fprintf(&b, "def %s : List String := [\n", f.lean)
+		for j, l := range sk {
+			sep := ","
+			if j == len(sk)-1 {
+				sep = ""
+			}
+			fmt.Fprintf(&b, "  %s%s\n", LeanString(l), sep)
+		}
+		b.WriteString("]\n\n")
+	}
+
 	// the decision function itself: every statement of _defineOwnProperty in order (conditions, assignments, gotos)
 	sk, err := c04Skeleton(p, p.FuncDecl("baseObject", "_defineOwnProperty"))
 	if err != nil {
